@@ -144,7 +144,7 @@ Inductive op :=
 | OGetItem (f : gform)
 | OIterBuild (how : buildkind) (sel : list nat)   (* cls.from_images / collate_samples of [list(cur)[k] for k in sel] *)
 | OIterPick (k : nat)                              (* list(cur)[k] *)
-| ONarrowM (dim : Z) (start len : nat)             (* ImageBatch.narrow method (dims 0 and 1 only) *)
+| ONarrowM (dim : Z) (start len : nat)             (* ImageBatch.narrow method (batch and channel dimension) *)
 | OCopy (c : copykind)
 | OAppend                                          (* cur.append(other) *)
 | OToBatch.                                        (* Image.batch() *)
@@ -826,13 +826,15 @@ Definition run_op (o : op) (args : list tval) : ores :=
       | _, _ => OErr EType
       end
   | ONarrowM z st len =>
-      match t_kind cur, data_sem o [sh], norm_dim (ndim sh) z with
-      | TBatch fl (g0 :: _), DOne d, Some nd =>
-          if nd <=? 1 then one_kind d (make_instance fl (d_shape d) (repeat g0 (nent (d_shape d))))    (* grid = self.grid() = grid 0 *)
-          else OErr ERuntime                                                       (* spatial narrowing is not modelled *)
-      | TBatch _ [], _, _ => OErr EIndex
-      | _, DErr e, _ => OErr e
-      | _, _, _ => OErr EType
+      (* ImageBatch.narrow: grid = self._grid; dim == 0 -> grid[start : start + length]; dim > 1 -> every grid narrowed
+         (not modelled); any other value of dim (1, or a negative dimension) leaves the grids as they are *)
+      match t_kind cur, data_sem o [sh] with
+      | TBatch fl gs, DOne d =>
+          if (z =? 0)%Z then one_kind d (make_instance fl (d_shape d) (py_slice gs st (st + len)))
+          else if (1 <? z)%Z then OErr ERuntime
+          else one_kind d (make_instance fl (d_shape d) gs)
+      | _, DErr e => OErr e
+      | _, _ => OErr EType
       end
   | OCopy c =>
       match t_kind cur with
